@@ -129,14 +129,18 @@ def setWithTemplate (reserved : List Name) (dataKeys : List Name) : Outcome :=
   if bad.isEmpty then .proceeds else .nameConflict bad
 
 /-- `keys`: for `render*` the keyword arguments, for `render_context` the keys the given `Context` was
-created with; `kw`: the extra keyword arguments of `render_context`; `fresh`: `context._with_template is None` -/
+created with; `kw`: the extra keyword arguments of `render_context`; `fresh`: `context._with_template is None`.
+`render_context` first runs `_set_with_template` on a fresh context, then (when the regenerated flag says the
+code does so) intersects `kwargs` with the reserved names. -/
 def renderEntry (reserved : List Name) (e : Entry) (fresh : Bool) (keys kw : List Name) : Outcome :=
   match e with
   | .render | .renderUnicode | .defRender | .defRenderUnicode =>
       setWithTemplate reserved (keys ++ [captureName, callerName])
   | .renderContext | .defRenderContext =>
-      let _ := kw
-      if fresh then setWithTemplate reserved (keys ++ [captureName, callerName]) else .proceeds
+      match (if fresh then setWithTemplate reserved (keys ++ [captureName, callerName]) else .proceeds) with
+      | .nameConflict l => .nameConflict l
+      | .proceeds =>
+        if Generated.Names.renderContextChecksKwargs then setWithTemplate reserved kw else .proceeds
 
 /-! ## wire -/
 open MakoModel.Wire
